@@ -15,6 +15,7 @@ import (
 	"github.com/NethermindEth/juno/migration"
 	"github.com/NethermindEth/juno/migration/blocktransactions"
 	"github.com/NethermindEth/juno/migration/statedifflength"
+	"github.com/NethermindEth/juno/pruner"
 	"github.com/NethermindEth/juno/utils/log"
 	"github.com/NethermindEth/juno/verifh/lib"
 )
@@ -544,6 +545,60 @@ func upgradeCase(r *lib.Run, idx int) {
 			c.finish(image, f0, steps, okNew)
 			r.Case(fmt.Sprintf("%s|cancel|%d/%d", shape, k, base.ops))
 			r.Count("upgrade.plans:1-restart", 1)
+		}
+		// the retention floor moves between two starts: a start is cancelled while the state-diff-length
+		// backfill is under way (its checkpoint is saved), and before the backfill resumes block data below
+		// a cutoff ABOVE that checkpoint is pruned - what the history-pruner migration does when the next
+		// start enables pruning (it is registered ahead of the backfill). Here its effect is produced with
+		// the real pruner.PruneUpto on the interrupted image. The resumed upgrade must complete and every
+		// retained block must be intact.
+		if len(c.m.blocks) >= 4 {
+			tried := 0
+			for _, k := range points {
+				if k < 1 || tried >= 3 {
+					continue
+				}
+				steps := []planStep{{Kind: "cancel", CancelAt: k, FailAt: -1, Flags: f0.String()}}
+				okNew := map[uint64]bool{}
+				o := runUpgrade(pre, f0, k, -1)
+				if o.newErr != nil || !o.cancelled {
+					continue
+				}
+				mv := readMeta(o.store, nSlots)
+				if !mv.Current.Has(0) || mv.Current.Has(3) {
+					continue // the transaction-layout migration must be complete (the pruner reads the new layout), the backfill not
+				}
+				tried++
+				hi := uint64(len(c.m.blocks) - 1)
+				if hi <= c.m.oldest+1 {
+					continue
+				}
+				cut := c.m.oldest + 1 + rng.Uint64N(hi-c.m.oldest-1)
+				image := o.store.Copy()
+				if _, _, err := pruner.PruneUpto(context.Background(), image, cut, 1<<20); err != nil {
+					r.Inconclusive("prune-between-starts-failed")
+					continue
+				}
+				steps = append(steps, planStep{Kind: "prune-between-starts", FailAt: -1, Flags: f0.String(), Note: fmt.Sprintf("pruner.PruneUpto(%d) on the interrupted database (backfill checkpoint state: %x)", cut, mv.States[3])})
+				saved := c.m.oldest
+				c.m.oldest = cut
+				fin := runUpgrade(image, f0, 0, -1)
+				r.Eval(1)
+				r.Count("upgrade.plans:backfill-cancelled-then-pruned-above-its-checkpoint", 1)
+				switch {
+				case fin.newErr != nil:
+					c.report(steps, f0.String(), []issue{{"newrunner-refuses-own-interrupted-database", fin.newErr.Error()}})
+				default:
+					if iss := finalCheck(fin.store, c.m, f0, fin.runErr, nil, okNew); len(iss) > 0 {
+						for i := range iss {
+							iss[i].Class = "after-prune-between-starts:" + iss[i].Class
+						}
+						c.report(steps, f0.String(), iss)
+					}
+				}
+				c.m.oldest = saved
+				r.Case(fmt.Sprintf("%s|cancel-prune|%d/%d|cut%d", shape, k, base.ops, cut))
+			}
 		}
 		// one failing point read
 		for i := 0; i < 6 && base.reads > 0; i++ {
